@@ -391,6 +391,56 @@ static void fsser_records(const Args &a) {
 	}
 }
 
+
+// Pedersen opening / membership test and the non-interactive shuffle-of-known-content verifier (no batch verification)
+static void skc_records(const Args &a) {
+	size_t n = 3;
+	GrothSKC *skc = new GrothSKC(n, 16, a.thorough() ? 160 : 128, a.thorough() ? 80 : 64);
+	PedersenCommitmentScheme *com = skc->com;
+	auto key_tokens = [&](Rec &R) { R.z(com->p).z(com->q).z(com->h); std::vector<Z> g; for (size_t i = 0; i < com->g.size(); i++) g.push_back(Z(com->g[i])); R.t(zl(g)); };
+	auto variants2 = [&](std::vector<Z> vals, const std::function<void(const std::vector<Z>&)> &f) {
+		f(vals); SplitMix64 rg(gen().next());
+		for (size_t i = 0; i < vals.size(); i++) { Z keep = vals[i]; for (auto &m : catalogue(keep, com->p, com->q, rg)) { vals[i] = m.val; f(vals); } vals[i] = keep; }
+	};
+	int reps = a.thorough() ? 3 : 1;
+	for (int rep = 0; rep < reps; rep++) {
+		std::vector<Z> m(n); std::vector<mpz_ptr> mp; for (auto &z : m) { tmcg_mpz_srandomm(z, com->q); mp.push_back(z); }
+		{   // opening (c, r, m_1..m_n) and membership of c
+			Z c, r; com->Commit(c, r, mp);
+			std::vector<Z> v = {c, r}; v.insert(v.end(), m.begin(), m.end());
+			variants2(v, [&](const std::vector<Z> &x) {
+				std::vector<mpz_ptr> xm; std::vector<Z> xs(x.begin() + 2, x.end()); for (auto &z : xs) xm.push_back(z);
+				int out; try { out = com->Verify(x[0], x[1], xm) ? 1 : 0; } catch (...) { out = 2; }
+				{ Rec R("pedv"); key_tokens(R); R.z(x[0]).z(x[1]).t(zl(xs)).d(out); }
+				{ Rec R("tmv"); key_tokens(R); R.z(x[0]).d(com->TestMembership(x[0]) ? 1 : 0); } });
+		}
+		// statement: c commits to the permuted messages
+		std::vector<size_t> pi; for (size_t i = 0; i < n; i++) pi.push_back(i);
+		for (size_t i = n - 1; i > 0; i--) std::swap(pi[i], pi[gen().below(i + 1)]);
+		Z r, c; tmcg_mpz_srandomm(r, com->q);
+		std::string proof; bool ok = false;
+		for (int conv = 0; conv < 2 && !ok; conv++) {
+			std::vector<mpz_ptr> perm(n); for (size_t i = 0; i < n; i++) { if (conv == 0) perm[i] = m[pi[i]]; else perm[pi[i]] = m[i]; }
+			com->CommitBy(c, r, perm);
+			std::ostringstream o; skc->Prove_noninteractive(pi, r, mp, o); proof = o.str();
+			std::istringstream i(proof); ok = skc->Verify_noninteractive(c, mp, i, false);
+		}
+		if (!ok) { printf("NOTE rec skc: honest proof not accepted\n"); continue; }
+		std::vector<Atom> at = atoms_of(proof);
+		if (at.size() != 3 + n + 1 + (n - 1) + 1) { printf("NOTE rec skc: unexpected transcript shape (%zu tokens)\n", at.size()); continue; }
+		std::vector<Z> v; v.push_back(c); v.insert(v.end(), m.begin(), m.end());
+		for (auto &t : at) { Z x; from_b62(x, proof.substr(t.pos, t.len)); v.push_back(x); }
+		variants2(v, [&](const std::vector<Z> &x) {
+			std::vector<Z> xm(x.begin() + 1, x.begin() + 1 + n); std::vector<mpz_ptr> xmp; for (auto &z : xm) xmp.push_back(z);
+			std::ostringstream o; for (size_t i = 1 + n; i < x.size(); i++) o << (mpz_srcptr)x[i] << std::endl;
+			int out = logged_verdict([&] { std::istringstream i(o.str()); return skc->Verify_noninteractive(x[0], xmp, i, false); });
+			size_t b = 1 + n;
+			std::vector<Z> f(x.begin() + b + 3, x.begin() + b + 3 + n), fD(x.begin() + b + 3 + n + 1, x.begin() + b + 3 + n + 1 + (n - 1));
+			Rec R("skcv"); key_tokens(R); R.u(skc->l_e_nizk).z(x[0]).t(zl(xm)).z(x[b]).z(x[b + 1]).z(x[b + 2]).t(zl(f)).z(x[b + 3 + n]).t(zl(fD)).z(x[b + 3 + n + 1 + (n - 1)]).t(table_token()).d(out); });
+	}
+	delete skc;
+}
+
 static void verifier_records(const Args &a) {
 	World W(a.thorough() ? 160 : 128, a.thorough() ? 80 : 64);
 	BarnettSmartVTMF_dlog *A = W.A, *B = W.B;
@@ -546,7 +596,7 @@ int main(int argc, char **argv) {
 	unsigned long fsz = a.thorough() ? 768 : 512, gsz = a.thorough() ? 192 : 160;
 	std::string only = a.only;
 	if (only == "qr") { qr_systems(a); printf("DONE qr\n"); return 0; }
-	if (only == "rec") { fsser_records(a); verifier_records(a); printf("DONE rec\n"); return 0; }
+	if (only == "rec") { fsser_records(a); verifier_records(a); skc_records(a); printf("DONE rec\n"); return 0; }
 	World W(fsz, gsz);
 	printf("WORLD p=%s q=%s\n", hx(W.A->p).c_str(), hx(W.A->q).c_str());
 	find_small_order(W.A->p, W.A->q);
